@@ -137,7 +137,7 @@ def expected_call(files_data, sets, service, env_service):
 
 # ------------------------------------------------------------------------------ P-precedence
 FILE2 = ["absent", "overrides a nested component option and adds a logging section", "replaces a nested dict by a scalar and sets a top-level option",
-         "sets a nested key to null"]
+         "sets a nested key to null", "sets the top-level options `logging` and `max_threads` to null"]
 SETS = ["none", "component.opts.x=5", "logging.loggers.a\\.b.level=DEBUG", "max_threads=7", "component.opts.nested.y=[1, 2]", "component.opts={z: 1}",
         "component.opts.x=null", "component.opts.t=!Env C16_VAR", "component.opts.f=!TextFile secret.txt",
         "component.opts.dsn=postgresql://app@db/app?sslmode=require&x=1"]
@@ -148,12 +148,14 @@ TAGS = ["none", "!Env", "!TextFile", "!BinaryFile", "!Env of a variable that is 
 
 
 def prec_params(tier):
-    return [P("file2", 0, 3), P("set1", 0, 9), P("set2", 0, 9), P("tag", 0, 4), P("svc", 0, 1)]
+    return [P("file2", 0, 4), P("set1", 0, 9), P("set2", 0, 9), P("tag", 0, 4), P("svc", 0, 1), P("triple", 0, 1)]
 
 
 @guard
 def prec_fn(a, tier):
-    f2, s1, s2, tag, svc = pick(a["file2"], 4), pick(a["set1"], 10), pick(a["set2"], 10), pick(a["tag"], 5), pick(a["svc"], 2)
+    f2, s1, s2, tag, svc = pick(a["file2"], 5), pick(a["set1"], 10), pick(a["set2"], 10), pick(a["tag"], 5), pick(a["svc"], 2)
+    # with both slots empty: optionally THREE overrides - a key, then its parent section as a whole, then the key again (applied strictly in order)
+    triple = pick(a["triple"], 2) if (s1 == 0 and s2 == 0) else 0
     tagged_yaml = {0: "plain", 1: "!Env C16_VAR", 2: "!TextFile secret.txt", 3: "!BinaryFile secret.txt", 4: "!Env C16_EMPTY"}[tag]
     tagged_val = {0: "plain", 1: "from-env", 2: "file-text\n", 3: b"file-text\n", 4: ""}[tag]
     comp = {"type": "mod:Cls", "opts": {"x": 1, "nested": {"y": 1, "keep": True}, "tagged": tagged_val}}
@@ -178,6 +180,8 @@ def prec_fn(a, tier):
     elif f2 == 3:
         over = {"component": {"opts": {"nested": None}}}
         datas.append({"services": {"web": over}} if svc else over)
+    elif f2 == 4:
+        datas.append({"logging": None, "max_threads": None})
     if f2:
         files.append(yaml.safe_dump(datas[-1]))
     sets_txt, sets_val = [], []
@@ -187,6 +191,10 @@ def prec_fn(a, tier):
             if k.startswith("component"):
                 k = prefix + k
             sets_txt.append(f"{k}={SETS[s].split('=', 1)[1]}")
+            sets_val.append((k, v))
+    if triple:
+        for k, v, txt in ((prefix + "component.opts.x", 1, "1"), (prefix + "component.opts", {"z": 1}, "{z: 1}"), (prefix + "component.opts.x", 2, "2")):
+            sets_txt.append(f"{k}={txt}")
             sets_val.append((k, v))
     uses_file = tag in (2, 3) or 8 in (s1, s2)
     code, calls, text, exc = invoke(files, sets_txt, None, None, {"C16_VAR": "from-env", "C16_EMPTY": ""}, first_secret="old-text\n" if uses_file else None)
